@@ -135,6 +135,18 @@ CHECKS.update({
         'note': 'trusted: TxMonitor::refAnswer/followForeign (harness/bus_mon.h); registrations ambiguous by source+tail length are not generated',
         'technique': 'online answer-entitlement/content monitor with reference lookup over generated answer sets on the real stack, ASan/UBSan',
     },
+    'C16': {
+        'text': 'The real MainLoop (decodeRequest), UserList, MessageMap, BusHandler and MqttHandler (fake MQTT client) run on a stub protocol '
+                'that records every telegram handed to the bus layer. Generated and exhaustively planted worlds (ACL files, default entries, '
+                'message levels over {a,b}^1..3 so that names are prefixes/suffixes/infixes of each other) are driven with every command form '
+                'in every authentication state; a token-set reference decides per command whether a value, a bus telegram, a poll-priority '
+                'change, a listing entry or an MQTT publication may occur and whether access must be granted. Message::checkLevel is also '
+                'swept exhaustively against the reference.',
+        'design_ref': 'DESIGN.md section 2, C16',
+        'note': 'trusted: refAccess() in harness/daemon_driver.cpp (split on ";", exact token or "*"), the world generator ground truth; '
+                'bus observation at ProtocolHandler::addRequest; KNX sink not constructed',
+        'technique': 'reference-predicate monitor over responses, stub-bus telegrams, poll priorities and sink publications of the real daemon objects, ASan/UBSan',
+    },
     'C17': {
         'text': 'Histories of getNextPoll interleaved with priority changes, front/back insertion, late-loaded messages, removal and reload; '
                 'an online monitor checks the stride-scheduling waiting bound and proportional shares on perturbation-free windows.',
